@@ -1,6 +1,7 @@
 package main
 
 import (
+	"encoding/hex"
 	"encoding/json"
 	"fmt"
 	"net/url"
@@ -169,6 +170,12 @@ func runPub(c *h.Ctx, r *h.Report) {
 		lines = append(lines, f.tokLine(tok, now))
 		lines = append(lines, h.Line(append(append([]string{"pub"}, a.wire(true)...), h.B(formOk), h.HexList(topics), h.Hex(form.Get("retry")),
 			h.B(len(form["private"]) != 0), h.Hex(form.Get("data")), h.Hex(form.Get("id")), h.Hex(form.Get("type")))...))
+		// the fields the hub reads from the body, by the model's own form decoding (Model/Form) — not only by net/url
+		if strings.HasPrefix(cs.ContentType, "application/x-www-form-urlencoded") {
+			if mf, gf := c.Driver.Ask1(h.Line("form.fields", hex.EncodeToString([]byte(cs.Body)))), goFields(cs.Body); mf != gf {
+				r.Disagree(h.Disagreement{Class: "C02.form-fields", Case: cs, Model: mf, Impl: gf})
+			}
+		}
 		ans := c.Driver.Ask(lines)
 		model := ans[len(ans)-1]
 
